@@ -512,7 +512,7 @@ pub fn walks(prop: &str, seed: u64, count: usize, nsyms: usize, rep: &mut Report
         };
         let props = Props { lc: pr.0, lp: pr.1, pb: pr.2 };
         let small = i % 2 == 0;
-        let max_dist = if small { [1u64, 2, 3, 5, 8, 64, 300][i / 2 % 7] } else { 1 << 22 };
+        let max_dist = if small && i % 14 == 12 { 4096 } else if small { [1u64, 2, 3, 5, 8, 64, 300][i / 2 % 7] } else { 1 << 22 };
         let w = WalkCfg { nsyms, props, max_dist, lit_alphabet: if i % 4 == 1 { 3 } else { 256 } };
         let mut prog = random_walk(&mut rng, &w);
         let with_marker = i % 2 == 1 || i % 5 == 0;
@@ -523,7 +523,10 @@ pub fn walks(prop: &str, seed: u64, count: usize, nsyms: usize, rep: &mut Report
         }
         // raw decoder with the *exact* dictionary (copies wrap), one-shot with header dict,
         // and a larger declared dictionary: all must give the same bytes
-        let variants: Vec<(&str, u32)> = if small {
+        let variants: Vec<(&str, u32)> = if small && i % 14 == 12 {
+            // distances up to exactly 4096 under a header dictionary field below 4096 (behaves as 4096)
+            vec![("oneshot", 1), ("oneshot", 4095), ("stream", 0), ("raw", 4096)]
+        } else if small {
             vec![("raw", max_dist as u32), ("raw", (max_dist as u32) * 2 + 1), ("oneshot", 0), ("stream", 4096)]
         } else {
             vec![("oneshot", 1 << 22), ("raw", 1 << 22), ("oneshot", 0xFFFF_FFFF), ("stream", 1 << 23)]
@@ -676,7 +679,9 @@ pub fn memlimit_matrix(prop: &str, seed: u64, nprogs: usize, rep: &mut Report) {
         let produced = cs.out.len() as u64;
         let dict_eff = (dict as u64).max(4096);
         let need = produced.min(dict_eff);
-        let mut limits: Vec<Option<u64>> = vec![Some(0), Some(need - 1), Some(need), Some(need + 1), Some(dict_eff - 1), Some(dict_eff), None, Some(u32::MAX as u64)];
+        let mut limits: Vec<Option<u64>> = vec![Some(0), Some(need - 1), Some(need), Some(need + 1), Some(dict_eff - 1), Some(dict_eff), None, Some(u32::MAX as u64),
+            // limits beyond 32 bits must behave as "no limit" (a narrowed limit would wrap to something small)
+            Some(1 << 32), Some((1 << 32) + need - 1), Some(1 << 40), Some(u64::MAX)];
         limits.dedup();
         for m in limits {
             for api_name in ["oneshot", "stream", "raw"] {
@@ -707,7 +712,7 @@ pub fn memlimit_matrix(prop: &str, seed: u64, nprogs: usize, rep: &mut Report) {
                 let peak = alloc::peak_above(base);
                 // history buffered by the decoder is at most m: allow Vec doubling (2m), the sink (2 * produced, ours),
                 // probability tables and encoder-side scratch of this harness call (data + output copies)
-                if let Some(mm) = m {
+                if let Some(mm) = m.filter(|x| *x < (1 << 31)) {
                     let allowance = 2 * mm as usize + 6 * produced as usize + 4 * data.len() + (1 << 20);
                     if ok && peak > allowance {
                         let mut cj = serde_json::to_value(&c).unwrap();
@@ -720,6 +725,189 @@ pub fn memlimit_matrix(prop: &str, seed: u64, nprogs: usize, rep: &mut Report) {
                 }
             }
         }
+    }
+}
+
+/// C09 "never fabricates bytes": a valid prefix, then ONE copy whose source does not exist, then a
+/// continuation that is coded as if the missing bytes had been zeros (what a lenient window would
+/// supply), terminated cleanly.  A decoder that fabricates accepts the whole stream; the format
+/// says the copy is an error.  Circular window (raw decoder, small and 4096-byte dictionaries,
+/// one-shot, Stream) and accumulating window (LZMA2, also right after a dictionary reset).
+pub fn fab_probes(prop: &str, seed: u64, n: usize, rep: &mut Report) {
+    use crate::build::{lzma2_chunk_header, L2State, Chunk};
+    use crate::coding::{encode_decs, Probs};
+    use crate::kernel::RangeEnc;
+    let mut rng = StdRng::seed_from_u64(seed ^ 0xfab);
+    // encode `prefix` (valid), then `bad` with fabricated zero bytes, then `tail`; returns (payload, outlen_if_fabricated, valid_prefix_out)
+    fn enc_fab(cs: &mut CS, probs: &mut Probs, p: Props, prefix: &[Sym], bad: Sym, tail: &[Sym]) -> (Vec<u8>, usize, Vec<u8>) {
+        let mut enc = RangeEnc::new();
+        let start = cs.out.len();
+        for s in prefix {
+            let d = cs.decisions(s, p);
+            encode_decs(&mut enc, probs, &d);
+            cs.apply(s);
+        }
+        let valid_out = cs.out[start..].to_vec();
+        let d = coding::invalid_decisions(cs, &bad, p);
+        encode_decs(&mut enc, probs, &d);
+        // fabricate: the copy "succeeds" reading zeros where nothing exists
+        let (n, dist, nst, nrep): (u32, u64, usize, [u64; 4]) = match bad {
+            Sym::Match { d, n } => (n, d, coding::match_next(cs.st), [d - 1, cs.rep[0], cs.rep[1], cs.rep[2]]),
+            Sym::Short => (1, cs.rep[0] + 1, coding::short_next(cs.st), cs.rep),
+            Sym::Rep { r, n } => {
+                let rp = cs.rep;
+                let nr = match r {
+                    0 => rp,
+                    1 => [rp[1], rp[0], rp[2], rp[3]],
+                    2 => [rp[2], rp[0], rp[1], rp[3]],
+                    _ => [rp[3], rp[0], rp[1], rp[2]],
+                };
+                (n, nr[0] + 1, coding::rep_next(cs.st), nr)
+            }
+            _ => (0, 1, cs.st, cs.rep),
+        };
+        for _ in 0..n {
+            let l = cs.out.len() as u64;
+            let b = if dist <= l { cs.out[(l - dist) as usize] } else { 0 };
+            cs.out.push(b);
+        }
+        cs.st = nst;
+        cs.rep = nrep;
+        for s in tail {
+            if cs.valid(s) {
+                let d = cs.decisions(s, p);
+                encode_decs(&mut enc, probs, &d);
+                cs.apply(s);
+            }
+        }
+        (enc.finish(), cs.out.len() - start, valid_out)
+    }
+    for i in 0..n {
+        let p = Props { lc: [3, 0, 2][i % 3], lp: [0, 2, 0][i % 3], pb: [2, 0, 1][i % 3] };
+        let npre = [0usize, 1, 3, 9, 40][i % 5];
+        let dict: u32 = [1u32, 2, 3, 5, 8, 4096][i % 6];
+        let prefix = if npre == 0 { vec![] } else { random_walk(&mut rng, &WalkCfg { nsyms: npre, props: p, max_dist: dict as u64, lit_alphabet: 9 }) };
+        let produced = coding::encode_program(&prefix, p).out.len() as u64;
+        let bads: Vec<Sym> = vec![
+            Sym::Match { d: produced + 1, n: 2 + (i as u32 % 7) },
+            Sym::Match { d: (dict as u64).max(produced) + 1, n: 3 },
+            Sym::Match { d: 0xFFFF_FFF0, n: 2 },
+        ];
+        let tail = vec![Sym::Lit { b: b'a' }, Sym::Lit { b: b'b' }];
+        for bad in bads {
+            // ---- circular window: raw decoder (exact dict), one-shot and stream (header dict) ----
+            for (api_name, marker) in [("raw", true), ("raw", false), ("oneshot", true), ("stream", false)] {
+                let mut cs = CS::default();
+                let mut probs = Probs::default();
+                let mut t2 = tail.clone();
+                if marker {
+                    t2.push(Sym::Eos);
+                }
+                // Eos is not "valid()"-filtered away: CS::valid(Eos) is true
+                let (payload, total, valid_out) = enc_fab(&mut cs, &mut probs, p, &prefix, bad, &t2);
+                let size = if marker { None } else { Some(total as u64) };
+                let (data, o) = match api_name {
+                    "raw" => {
+                        let (o, _) = api::raw_lzma(&payload, p.lc, p.lp, p.pb, dict, size, None);
+                        (payload.clone(), o)
+                    }
+                    "oneshot" => {
+                        let mut d = lzma_header(p, dict, Some(size.unwrap_or(u64::MAX)));
+                        d.extend_from_slice(&payload);
+                        let o = api::lzma_bytes(&d, &api::options(Opt::ReadFromHeader, None, false));
+                        (d, o)
+                    }
+                    _ => {
+                        let mut d = lzma_header(p, dict, Some(size.unwrap_or(u64::MAX)));
+                        d.extend_from_slice(&payload);
+                        let r = api::stream_run(&d, &[d.len() / 2], &api::options(Opt::ReadFromHeader, None, false));
+                        (d, api::Outcome { verdict: r.verdict, out: r.out, msg: r.msg })
+                    }
+                };
+                // header dictionaries below 4096 behave as 4096: a distance <= 4096 within produced is then legal
+                let dict_eff = if api_name == "raw" { dict as u64 } else { (dict as u64).max(4096) };
+                let really_invalid = match bad {
+                    Sym::Match { d, .. } => d > produced || d > dict_eff,
+                    _ => true,
+                };
+                if !really_invalid {
+                    continue;
+                }
+                rep.eval(hash_of(&(hex(&data), api_name, dict)), true);
+                rep.count("fab_probe");
+                let bad_res = match o.verdict {
+                    Verdict::Panic => Some(format!("panic: {}", o.msg)),
+                    Verdict::Ok => Some(format!("a copy with distance beyond the window was accepted: {} bytes delivered, only {} exist before it", o.out.len(), valid_out.len())),
+                    Verdict::Err => {
+                        if !is_prefix(&o.out, &valid_out) { Some("bytes beyond the valid prefix were delivered before the error".to_string()) } else { None }
+                    }
+                };
+                if let Some(b) = bad_res {
+                    rep.violation(prop, format!("{} dict {}: {}", api_name, dict, b), json!({"kind": "bytes", "api": api_name, "dict": dict, "props": p, "size": size, "data_hex": hex(&data), "expect": "err"}));
+                }
+            }
+        }
+        // ---- accumulating window (LZMA2): the invalid copy is the FIRST symbol after a dictionary reset, or reaches before it ----
+        let lp = Props { lc: p.lc.min(4), lp: p.lp.min(4 - p.lc.min(4)), pb: p.pb };
+        for (ci, first_bad) in [Sym::Short, Sym::Match { d: 1, n: 4 }, Sym::Rep { r: (i % 4) as u8, n: 3 }, Sym::Match { d: 2, n: 2 }].iter().enumerate() {
+            let mut st = L2State::default();
+            let mut stream: Vec<u8> = vec![];
+            if i % 2 == 0 {
+                let ch = st.push(&Chunk::Raw { reset: true, data: b"hello".to_vec() });
+                stream.extend_from_slice(&ch.bytes);
+            }
+            // class 3: dictionary reset, history empty again
+            st.cs.out.clear();
+            st.cs.st = 0;
+            st.cs.rep = [0; 4];
+            st.probs.reset();
+            let (payload, total, _) = enc_fab(&mut st.cs, &mut st.probs, lp, &[], *first_bad, &tail);
+            let mut b = lzma2_chunk_header(3, total.max(1), payload.len(), Some(lp));
+            b.extend_from_slice(&payload);
+            stream.extend_from_slice(&b);
+            stream.push(0);
+            for api_name in ["lzma2", "xz"] {
+                let o = if api_name == "lzma2" { api::lzma2_bytes(&stream).0 } else {
+                    let f = crate::build::XzFile { check: 0, blocks: vec![crate::build::XzBlock { payload: stream.clone(), content: vec![], ..Default::default() }], ..Default::default() };
+                    api::xz_bytes(&f.serialize().bytes)
+                };
+                rep.eval(hash_of(&(hex(&stream), api_name, ci)), true);
+                rep.count("fab_probe_lzma2");
+                if o.verdict != Verdict::Err {
+                    rep.violation(prop, format!("{}: a copy from an empty dictionary (first symbol after a dictionary reset) was accepted: {:?}, {} bytes", api_name, o.verdict, o.out.len()),
+                        json!({"kind": "bytes", "api": api_name, "data_hex": hex(&stream), "expect": "err"}));
+                }
+            }
+        }
+    }
+    if rep.samples.len() < 8 {
+        rep.sample(json!({"origin": "fab_probes", "what": "valid prefix + one copy beyond the window + continuation coded as if zeros had been supplied", "count": n}));
+    }
+}
+
+/// Replay of a raw-bytes case: {"api", "data_hex", "expect": "err", ...}
+pub fn replay_bytes(v: &Value, prop: &str, rep: &mut Report) {
+    let data = unhex(v["data_hex"].as_str().unwrap());
+    let apin = v["api"].as_str().unwrap_or("oneshot");
+    let o = match apin {
+        "raw" => {
+            let p: Props = serde_json::from_value(v["props"].clone()).unwrap();
+            api::raw_lzma(&data, p.lc, p.lp, p.pb, v["dict"].as_u64().unwrap_or(4096) as u32, v["size"].as_u64(), None).0
+        }
+        "lzma2" => api::lzma2_bytes(&data).0,
+        "xz" => {
+            let f = crate::build::XzFile { check: 0, blocks: vec![crate::build::XzBlock { payload: data.clone(), content: vec![], ..Default::default() }], ..Default::default() };
+            api::xz_bytes(&f.serialize().bytes)
+        }
+        "stream" => {
+            let r = api::stream_run(&data, &[data.len() / 2], &api::options(Opt::ReadFromHeader, None, false));
+            api::Outcome { verdict: r.verdict, out: r.out, msg: r.msg }
+        }
+        _ => api::lzma_bytes(&data, &api::options(Opt::ReadFromHeader, None, false)),
+    };
+    rep.eval(1, true);
+    if o.verdict != Verdict::Err {
+        rep.violation(prop, format!("replayed: {:?} with {} bytes", o.verdict, o.out.len()), v.clone());
     }
 }
 
